@@ -118,7 +118,7 @@ def account(ctx, case, viols, info, extra=()):
 def ev_for(i, kind, fn_raises=False):
     if kind == "V":
         if i == 0:
-            return ["c", 0, "fn", [["raise", "E2"]] if fn_raises else [["echo"]]]
+            return ["c", 0, "fn", [["raise", "ISE" if fn_raises == "ISE" else "E2"]] if fn_raises else [["echo"]]]
         return ["c", i, "value", value_of(i)]
     if kind == "E":
         return ["c", i, "error", "EF" if i % 2 else "E1"]  # (odd positions fail with a falsy exception instance)
@@ -140,6 +140,7 @@ def enum_cases(part, parts):
                 yield {"p": p, "k": k, "threads": [[ev_for(i, "V") for i in order]], "tape": []}
                 if total <= 3:
                     yield {"p": p, "k": k, "fn_raises": True, "threads": [[ev_for(i, "V", True) for i in order]], "tape": []}
+                    yield {"p": p, "k": k, "fn_raises": "ISE", "threads": [[ev_for(i, "V", "ISE") for i in order]], "tape": []}
                     for bad_i in range(n):
                         for kind in ("E", "C"):
                             yield {"p": p, "k": k, "threads": [[ev_for(i, kind if i == bad_i else "V") for i in order]], "tape": []}
